@@ -49,6 +49,9 @@ type Stall struct {
 type StallWindow struct {
 	Role     string
 	From, To time.Duration
+	// Holding: the stalled goroutine held at least one other lock at that moment (a caller descheduled inside a
+	// critical section of the system under test stalls the system, not just itself)
+	Holding bool
 }
 
 // Sched arbitrates every mutex of the system under test in controlled mode.
@@ -290,7 +293,13 @@ func (s *Sched) normalize(now time.Duration) {
 			if strings.Contains(r.Role, st.Role) && strings.Contains(r.Site, st.Site) {
 				s.stallHit[i]++
 				if s.stallHit[i] == st.Nth || (st.Every > 0 && s.stallHit[i] > st.Nth && (s.stallHit[i]-st.Nth)%st.Every == 0) {
-					s.Windows = append(s.Windows, StallWindow{Role: r.Role, From: now, To: now + time.Duration(st.DelayMs)*time.Millisecond})
+					holding := false
+					for _, ls := range s.locks {
+						if (ls.writer && ls.wgid == r.Gid) || ls.rgids[r.Gid] > 0 {
+							holding = true
+						}
+					}
+					s.Windows = append(s.Windows, StallWindow{Role: r.Role, From: now, To: now + time.Duration(st.DelayMs)*time.Millisecond, Holding: holding})
 					r.NotBefore = now + time.Duration(st.DelayMs)*time.Millisecond
 					s.StallsFired++
 					s.w.wakeAt(r.NotBefore)
